@@ -175,6 +175,9 @@ impl<'a> Gen<'a> {
         if !matches!(op, HOp::Dump | HOp::Get { .. } | HOp::Sub { .. }) {
             let d = self.sys.dump_from(&cur);
             self.rep.line("tw dump", &d);
+            // the admin's view of the same state, through the private API
+            let a = self.sys.admin();
+            self.rep.line("tw admin", &a);
         }
         if self.monitors {
             crate::monitors::after_op(self, &op, &out, &log, &send, &get, cur);
